@@ -155,12 +155,23 @@ func runThreshold(t *testing.T, rc *RunCtx) {
 		}
 		return o
 	}
+	// twins: a replacement process that was let onto the storage directory of an instance that is still serving
+	// (none on a tree that refuses the second opener).  Requests for that instance then reach either process.
+	twins := map[*Node]*Instance{}
+	defer func() {
+		for _, tw := range twins {
+			tw.Close()
+		}
+	}()
 	submit := func(phase int, plan [][2]int) {
 		for _, x := range plan {
 			nd := c.Nodes[x[0]]
 			r := &reqRec{duty: x[1], node: nd, op: mkOp(nd, x[1]), phase: phase}
 			reqs = append(reqs, r)
 			inst := nd.Inst
+			if tw := twins[nd]; tw != nil && ch.Pick(2, 0) == 1 {
+				inst = tw
+			}
 			s.Spawn(fmt.Sprintf("duty%c@%s", 'A'+x[1], nd.Name), inst, func(_ *Task) { r.res = r.op.Exec(inst) })
 		}
 	}
@@ -251,6 +262,26 @@ func runThreshold(t *testing.T, rc *RunCtx) {
 				crashRestart(nd)
 				restarts++
 			}
+		}
+	}
+	// Swarm variant: an operator starts the replacement process of an instance on its storage directory while the
+	// old process still serves (an overlapping restart, a unit started twice).  Refused or let in, the share's history
+	// stays one.
+	if ch.Pick(4, 0) == 3 {
+		for _, nd := range c.Nodes {
+			if ch.Pick(2, 0) == 0 {
+				continue
+			}
+			nd := nd
+			s.Direct(func() {
+				tw, err := NewInstance(s, nd.Name+"-replacement", InstCfg{Dir: nd.Inst.Cfg.Dir, Pop: nd.Pop, Permissions: c.Perms, AdminIPs: c.AdminIPs})
+				if err != nil {
+					rc.Stats.Inc("replacement_process_on_same_directory_refused", 1)
+					return
+				}
+				rc.Stats.Inc("replacement_process_on_same_directory_started", 1)
+				twins[nd] = tw
+			})
 		}
 	}
 	var plan2 [][2]int
